@@ -19,6 +19,13 @@ Layers (CONTRIBUTING.md):
                  leaf's ancestor, marked inferred.
       * absent:  drop_level names no level of t: 'results' == the run without
                  drop_level.
+      * flatten_drop: A = tree t, flatten AND drop_level = l (l a non-leaf
+                 level or no level of t), marker table in which the parents
+                 of l and keys for parents outside the taxonomy each own a
+                 gene nobody else lists;  B = one-level taxonomy with the
+                 union of ALL lists of the table.  Same comparison as
+                 flatten; the hook trace of A must show the root voting on
+                 exactly that union (restricted to query/reference genes).
       `levelloop_util.c01_predicate` must hold on run A.
  (ii) correspondence: `levelloop_util.model_pipeline` (Lean `mapPipeline`,
       oracle read off the real output) on both runs of every pair.
@@ -37,8 +44,12 @@ RULE = ('bases: generated reference (taxonomy depth 1-6 with chains and '
         'from file order) x one configuration (bootstrap factor 1.0/0.9/0.5, '
         '1/4/10 iterations, chunk size 1..n+3, 1-4 workers, 3 encodings, 0-5 '
         'runners-up, one seed); pairs per base: one per droppable level '
-        '(every level but the leaf), one flatten, one absent level (flatten '
-        'on or off).  non-trivial = the run tree of the pair (reduced / '
+        '(every level but the leaf), one flatten (table with extra keys for '
+        'parents outside the taxonomy), one absent level (flatten on or off), '
+        'flatten x drop_level (quick: one droppable level + sometimes the '
+        'absent level; thorough: all) with private genes for the dropped '
+        'parents, crossed with n_runners_up=0 / bootstrap_iteration=1 / the '
+        'three encodings.  non-trivial = the run tree of the pair (reduced / '
         'one-level / stored) has a parent with >= 2 children, i.e. a vote is '
         'taken; distinct by canonical JSON of (kind, level, problem, config)')
 TRUSTED = ['anndata/h5py write and read back the query and the stats file as '
@@ -111,6 +122,42 @@ def gen_base(rng, i):
     return problem, cfg, mode
 
 
+def privatize(rng, problem, level):
+    """marker table in which every parent of `level` (if it is a level of the
+    taxonomy) lists a gene no other parent lists, plus keys for parents that
+    are not in the taxonomy, each with a gene of its own: the union of ALL
+    lists then differs from the union over any subset of the parents"""
+    tree = problem['tree']
+    shared = [g for g in problem['ref_genes'] if g in problem['query_genes']]
+    markers = {k: list(v) for k, v in problem['markers'].items()}
+    owners = []
+    if level in tree['hierarchy'][:-1]:
+        owners += [U.marker_key((level, n)) for n in tree[level]]
+    owners += ['ghost_level/ghost_%d' % i for i in range(rng.randint(1, 2))]
+    if rng.random() < 0.5:
+        owners.append('%s/not_a_node' % tree['hierarchy'][0])
+    pool = list(shared)
+    rng.shuffle(pool)
+    # keep at least two genes that stay unowned
+    private = {}
+    for k in owners:
+        if len(pool) <= 2:
+            break
+        private[k] = pool.pop()
+    taken = set(private.values())
+    free = [g for g in shared if g not in taken]
+    for k in list(markers):
+        markers[k] = [g for g in markers[k] if g not in taken]
+        while len(markers[k]) < 2 and len(free) > len(markers[k]):
+            g = rng.choice(free)
+            if g not in markers[k]:
+                markers[k].append(g)
+    for k, g in private.items():
+        markers.setdefault(k, rng.sample(free, min(2, len(free))))
+        markers[k] = list(markers[k]) + [g]
+    return markers
+
+
 def level_class(tree, level):
     h = tree['hierarchy']
     return 'top' if level == h[0] else 'middle'
@@ -150,7 +197,8 @@ def entry_class(a, b):
     return 'payload'
 
 
-PRIORITY = ['cells', 'reduced-levels', 'levels', 'assignment', 'ancestor',
+PRIORITY = ['cells', 'reduced-levels', 'levels', 'root-markers', 'assignment',
+            'ancestor',
             'flag', 'inferred-payload', 'probability', 'runner-up',
             'correlation', 'payload']
 
@@ -294,6 +342,14 @@ def pair_setup(problem, cfg, kind, level):
         cfg_a = dict(cfg, drop_level=level)
         cfg_b = dict(cfg, drop_level=None)
         return cfg_a, cfg_b, None, None
+    if kind == 'flatten_drop':
+        # flatten together with drop_level (present or absent): still the
+        # one-level taxonomy with the union of ALL lists of the table
+        cfg_a = dict(cfg, flatten=True, drop_level=level)
+        cfg_b = dict(cfg, flatten=False, drop_level=None)
+        union = sorted({g for v in problem['markers'].values() for g in v})
+        return cfg_a, cfg_b, U.reduced_tree(tree, flatten=True), \
+            {'None': union}
     raise ValueError(kind)
 
 
@@ -322,7 +378,8 @@ def check_pair(ctx, problem, cfg, kind, level=None, label='random'):
     if kind == 'absent' and level is None:
         level = ABSENT
     if (kind == 'drop' and (level not in h[:-1])) or \
-            (kind == 'absent' and level in h):
+            (kind == 'absent' and level in h) or \
+            (kind == 'flatten_drop' and level == h[-1]):
         raise ValueError('bad %s level %r for hierarchy %r' % (kind, level, h))
     detail = {'kind': kind, 'problem': problem, 'config': cfg, 'level': level}
     cfg_a, cfg_b, tree_b, markers_b = pair_setup(problem, cfg, kind, level)
@@ -330,6 +387,9 @@ def check_pair(ctx, problem, cfg, kind, level=None, label='random'):
         tree, flatten=cfg_a['flatten'])
     if kind == 'drop':
         sig = 'C17/drop/%s/' % level_class(tree, level)
+    elif kind == 'flatten_drop':
+        sig = 'C17/flatten+drop/%s/' % (
+            'absent' if level not in h else level_class(tree, level))
     else:
         sig = 'C17/%s/' % kind
     ctx.case(json.dumps(detail, sort_keys=True)
@@ -350,7 +410,12 @@ def check_pair(ctx, problem, cfg, kind, level=None, label='random'):
     if kind == 'absent':
         ctx.count('absent:%s' % ('flatten' if cfg['flatten'] else 'noflatten'))
 
-    ra = U.run_problem(problem, cfg_a, want_trace=False)
+    flat = kind in ('flatten', 'flatten_drop')
+    if kind == 'flatten_drop':
+        ctx.count('flatten_drop:%s' % ('absent' if level not in h
+                                       else level_class(tree, level)))
+        ctx.count('flatten_drop:runners:%d' % cfg['n_runners_up'])
+    ra = U.run_problem(problem, cfg_a, want_trace=flat)
     rb = U.run_problem(problem, cfg_b, tree=tree_b, markers=markers_b,
                        want_trace=False)
     if not ra['ok'] and not rb['ok']:
@@ -366,8 +431,12 @@ def check_pair(ctx, problem, cfg, kind, level=None, label='random'):
                    ra['error'] or rb['error']))
     elif kind == 'drop':
         fail = drop_fail(problem, level, ra['results'], rb['results'])
-    elif kind == 'flatten':
+    elif flat:
         fail = flatten_fail(problem, ra['results'], rb['results'])
+        if fail is None:
+            msg = U.flatten_root_genes_fail(problem, None, ra['nodes'])
+            if msg:
+                fail = ('root-markers', msg)
     else:
         fail = absent_fail(problem, ra['results'], rb['results'])
     if fail is None and ra['ok']:
@@ -390,29 +459,50 @@ def check_pair(ctx, problem, cfg, kind, level=None, label='random'):
     return fail is None
 
 
-def check_base(ctx, problem, cfg, mode='replay'):
+def check_base(ctx, problem, cfg, mode='replay', all_levels=True):
+    rng = ctx.rng
     h = problem['tree']['hierarchy']
     ctx.count('base:%s' % mode)
     ctx.count('base:depth:%d' % len(h))
     for level in h[:-1]:
         check_pair(ctx, problem, cfg, 'drop', level)
-    check_pair(ctx, problem, cfg, 'flatten')
-    cfg_abs = dict(cfg, flatten=ctx.rng.random() < 0.25)
+    # flatten alone, on a table with keys for parents outside the taxonomy
+    pf = dict(problem, markers=privatize(rng, problem, None))
+    check_pair(ctx, pf, cfg, 'flatten')
+    cfg_abs = dict(cfg, flatten=rng.random() < 0.25)
     check_pair(ctx, problem, cfg_abs, 'absent', ABSENT)
+    # flatten TOGETHER with drop_level: the dropped level's parents own genes
+    # nobody else lists; crossed with no runners-up / a single iteration
+    levels = list(h[:-1])
+    if not all_levels and len(levels) > 1:
+        levels = [rng.choice(levels)]
+    levels.append(ABSENT)
+    for i, level in enumerate(levels):
+        if level == ABSENT and not all_levels and rng.random() < 0.5:
+            continue
+        c = dict(cfg)
+        r = rng.random()
+        if r < 0.3:
+            c['n_runners_up'] = 0
+        if 0.2 < r < 0.5:
+            c['bootstrap_iteration'] = 1
+        c['encoding'] = rng.choice(['dense', 'csr', 'csc'])
+        pp = dict(problem, markers=privatize(rng, problem, level))
+        check_pair(ctx, pp, c, 'flatten_drop', level)
 
 
 def run(ctx):
     quick = ctx.tier == 'quick'
     c01.run_corpus(ctx, 'C17', replay)
-    for i in range(16 if quick else 120):
+    for i in range(12 if quick else 100):
         problem, cfg, mode = gen_base(ctx.rng, i)
-        check_base(ctx, problem, cfg, mode)
+        check_base(ctx, problem, cfg, mode, all_levels=not quick)
 
 
 def replay(ctx, data, from_corpus=False):
     d = data.get('detail', data)
     kind = d.get('kind')
-    if kind in ('drop', 'flatten', 'absent'):
+    if kind in ('drop', 'flatten', 'absent', 'flatten_drop'):
         check_pair(ctx, d['problem'], d['config'], kind, d.get('level'),
                    label='replay')
     elif kind == 'base':
